@@ -67,6 +67,9 @@ Allowed(e) ==
                      /\ e.ob = << >> /\ Len(e.r) = 2 /\ IsNumeral(e.r[1]) /\ IsNumeral(e.r[2])
                      /\ A!InZ(N(e.r[1])) /\ A!InZ(N(e.r[2]))
                      /\ A!QuotRemOK(x[1], x[2], N(e.r[1]), N(e.r[2]))
+                [] ent.mode = "fold" ->
+                     /\ e.ob = << >>
+                     /\ e.r \in UNION {Shown(o) : o \in A!SumOutcomes(ent.res, x[1])}
                 [] OTHER ->
                      /\ e.ob = << >>
                      /\ e.r \in (Shown(A!Spec(e.op, x)) \cup SpuriousNone(e.op, x))
@@ -79,6 +82,7 @@ Expected(e, n) ==
     ELSE LET ent == A!Ops[e.op]  x == Args(e)
          IN  CASE ent.mode = "enc" -> <<"the 8 little-endian bytes of", DecToString(A!Spec(e.op, x).v)>>
                [] ent.mode \in {"div", "quotrem"} -> <<"q*d + r = v, 0 <= r < d">>
+               [] ent.mode = "fold" -> <<"one of", UNION {Shown(o) : o \in A!SumOutcomes(ent.res, x[1])}>>
                [] OTHER -> <<"one of", Shown(A!Spec(e.op, x)) \cup SpuriousNone(e.op, x)>>
 
 IsEnd(e) == e.op = "end" /\ e.a = <<ToString(l - 1)>>
